@@ -159,6 +159,15 @@ def _setitem(d):
     return d
 
 
+def _setitem_frame(d):
+    import pandas as pd
+    d = d[["k", "x", "y"]]
+    if isinstance(d, pd.DataFrame):
+        d = d.copy()
+    d[["a", "b"]] = d[["x", "y"]]
+    return d
+
+
 def _setitem_scalar(d):
     import pandas as pd
     d = d[["k", "x"]]
@@ -204,6 +213,16 @@ EXPRS2 = {
     "x.to_frame": lambda d: d.x.to_frame(),
     "k+k": lambda d: d.k + d.k,
     "tail(1)": lambda d: d.tail(1),
+    "tail(0)": lambda d: d.tail(0),
+    "x.map(na_action)": lambda d: d.x.map(lambda v: v * 2 if v == v else -1.0, na_action="ignore"),
+    "assign(z,w)": lambda d: d.assign(z=d.x + 1, w=d.y * 2),
+    "assign(z=x,w=x)": lambda d: (lambda a: d.assign(z=a, w=a))(d.x),
+    "setitem([a,b]=[[x,y]])": lambda d: _setitem_frame(d),
+    "set_index(k,drop=False)": lambda d: d.set_index("k", drop=False),
+    "query(local_dict)": lambda d: d.query("x > @lim", local_dict={"lim": 1}),
+    "a*a": lambda d: (lambda a: a * a)(d.x),
+    "a+a+a": lambda d: (lambda a: a + a + a)(d.x),
+    "a*a>a": lambda d: (lambda a: a * a > a)(d.x),
     "query(x>1)": lambda d: d.query("x > 1"),
     "set_index(k)": lambda d: d.set_index("k"),
     "set_index(k).x+1": lambda d: d.set_index("k").x + 1,
@@ -238,6 +257,9 @@ add("groupby.count|count", "Series.count", lambda d: d.groupby("k").x.count().co
 add("groupby.sum|size", "Series.size", lambda d: d.groupby("k").x.sum().size)
 add("groupby.sum|var", "Series.var", lambda d: d.groupby("k").x.sum().var())
 add("groupby.sum|std", "Series.std", lambda d: d.groupby("k").x.sum().std())
+add("groupby.sum|var(ddof=0)", "Series.var", lambda d: d.groupby("k").x.sum().var(ddof=0))
+add("groupby.sum|std(ddof=0)", "Series.std", lambda d: d.groupby("k").x.sum().std(ddof=0))
+add("(a*a).sum", "Series.sum", lambda d: (lambda a: a * a)(d.x).sum())
 add("groupby.mean|tail(1)", "groupby(col).mean", lambda d: d.groupby("k").x.mean().tail(1))
 add("frame.sum|sum", "DataFrame.sum", lambda d: d[XY].sum().sum(), cols=XY)
 add("value_counts|sum", "Series.value_counts", lambda d: d.x.value_counts().sum())
